@@ -31,6 +31,11 @@ properties of `TimeIt`, reading the yielded mapping / collection / error
 context).  None of them is documented to change a scoped setting, so the model
 state is the same before and after a use.
 
+`EVENTS` lists things a program does inside a block that make user code the
+library dispatches to raise (detour destination, callbacks, view / format
+methods, functor bodies, evaluated code, ...); the exception is caught inside
+the block, and no scoped setting is documented to change by it.
+
 `OBSERVERS` are the observation points: for every setting a public getter AND
 a behavioural probe, each with `expect(state, env)` computed from the model
 state of *all* settings (e.g. a write probe is rejected under
